@@ -454,6 +454,20 @@ def xirr():
     return spec
 
 
+def natives():
+    """Functions that hand back native Python values which are == in Python
+    (True and 1.0, False and 0.0), each used as an operand directly."""
+    cells = {S + 'A1': 5, S + 'B1': '=ISNUMBER(A1)&""',
+             S + 'B2': '=ROUND(A1/5,0)&""', S + 'B3': '=ISTEXT(A1)&""',
+             S + 'B4': '=ROUND(A1/50,0)&""', S + 'B5': '=ISNUMBER(A1)=1',
+             S + 'B6': '=ROUND(A1/5,0)=1'}
+    spec = ModelSpec('natives', cells, [S + 'A1'], [0, 5], {},
+                     eval_cells=[S + 'B1', S + 'B2', S + 'B3', S + 'B4',
+                                 S + 'B5', S + 'B6'])
+    spec.differential = True
+    return spec
+
+
 def wholerow():
     """A whole-row reference: the row has 16 384 members, whichever of them
     are stored when the model is compiled (D1 is not, until it is set)."""
@@ -473,7 +487,7 @@ ALL = [chain, diamond, sumrange, formularange, crosssheet, textmodel, named,
        branch, lookup, errrange, typed, guarded, named_extracted, othersheet,
        logic, numtext]
 ALL_C05 = ALL + [twodim, longrange, criteria, overflow, raising, spill,
-                 ordering, xirr]
+                 ordering, xirr, natives]
 
 
 def by_name(name):
